@@ -1,12 +1,231 @@
-"""C20 — build configuration never changes results (translation validation over the K2 programs);
-async-stack bookkeeping balanced (monitor in the debug configurations)."""
-import k2
+"""C20 - build configuration never changes results; async-stack bookkeeping is balanced.
+
+First half (translation validation, by nature): the K2 programs (generated sender expressions x event
+scripts) compiled in each of the 8 configurations {C++17, C++20} x {NDEBUG, debug + async stacks} x
+{continuation visitation 0, 1}; every configuration's trace must equal the ONE trace of the Calc model,
+hence each other.
+
+Second half: theorems coq/Properties_C20_asyncstack.v over the AsyncStack model
+(coq/Proto/AsyncStackDefs.v: per-thread chain of roots, frames with parent links, the brackets of
+inject_async_stack.hpp around start() and every completion signal, sync_wait's initial_stack_root) for
+ALL op trees, ALL traced runs, ALL schedules: no assert fires, roots restored, activations balanced,
+parent chain = ancestors.  Tie (tools/k2as.py, harness/k2as.hpp, handler "asyncstack"): in the four debug
+configurations the same K2 programs print snapshots of the real bookkeeping at every leaf start / completion
+and at the root receiver; the traced run is reconstructed, replayed on the extracted model and the model's
+snapshots compared with the implementation's; direct monitors at quiescence; one family of cases under
+sync_wait (two threads) and - C++20 - a task<> awaiting the expression (monitors only: the coroutine path
+is not modelled); with continuation visitation: async_trace from every leaf against the predicted chain of
+receivers."""
+import hashlib, os, random, re
+import vlib, k2, k2as
+
 LEVEL = "translation_validation"
 CONFIGS = ["plain17", "plain20", "dbg17", "dbg20", "vis17", "vis20", "dbgvis17", "dbgvis20"]
+DBG = ["dbg17", "dbg20", "dbgvis17", "dbgvis20"]
+
+L0, L1, L2 = ("leaf", 0), ("leaf", 1), ("leaf", 2)
+AS_CORPUS = [   # every adaptor of the calculus at least once, inline and asynchronous children, internal just of done_as_optional
+    ("dopt", ("unstop", ("mat", L0))),
+    ("letv", ("just", 3), ("wall", L0, ("then", ("add", 1), ("var", 0)))),
+    ("lete", ("jerr", 21), ("seq", L0, ("udone", ("add", 2), L1))),
+    ("fin", ("letd", ("leafn", 0), ("just", 5)), ("withq", 1, 4, L1)),
+    ("wall", ("uerr", ("mul", 2), ("leafn", 0)), ("seq", ("jdone",), L1)),
+    ("dopt", ("wall", ("lete", ("leafn", 0), ("leafn", 1)), ("just", 2))),
+    ("seq", ("then", ("add", 1), ("just", 1)), ("letv", L0, ("wall", L1, ("var", 0)))),
+    ("mat", ("fin", ("wall", L0, L1), ("jerr", 25))),
+]
+SW_CORPUS = [   # expressions without stop_when (its async_trace finding is reported from the main corpus)
+    ("then", ("add", 1), L0),
+    ("letv", L0, ("wall", L1, ("var", 0))),
+    ("seq", L0, L1),
+    ("wall", ("letd", L0, L1), L2),
+    ("fin", ("lete", L0, ("var", 0)), L1),
+    ("dopt", ("unstop", ("mat", L0))),
+]
+WAIT_CORPUS = SW_CORPUS + [("wall", ("swhen", L0, L1), L2)]
+TASK_CORPUS = SW_CORPUS[:4]
+
+
+def _build(chk, cases_by_tu, cfg, mode, tag):
+    cd = vlib.cache_dir()
+    gen_dir = os.path.join(cd, "k2src"); os.makedirs(gen_dir, exist_ok=True)
+    jobs = []
+    for cases in cases_by_tu:
+        src = k2as.emit_tu(cases, mode)
+        h = hashlib.sha256(src.encode()).hexdigest()[:12]
+        p = os.path.join(gen_dir, "%s_%s.cpp" % (tag, h))
+        if not os.path.exists(p):
+            open(p, "w").write(src)
+        jobs.append(("%s_%s" % (tag, h), cfg, p, "", True))
+    built = vlib.build_many(jobs)
+    out = []
+    for j, cases in zip(jobs, cases_by_tu):
+        exe, err = built[(j[0], j[1])]
+        if err:
+            rp = chk.replay_file("as_build_" + j[0], {"kind": "build-failure", "tu": j[2], "error": err[-3000:]})
+            chk.violation("as/build/%s" % cfg, rp, no_input=True, text="async-stack TU does not compile (%s): %s" % (cfg, err[-300:].replace("\n", " ")))
+            continue
+        out.append((exe, cases))
+    return out
+
+
+def _wait_scripts(rng, e, n):
+    ls = sorted(set(k2.leaves(e)))
+    out = []
+    for _ in range(n):
+        o = ls[:]; rng.shuffle(o)
+        out.append((0, " ".join("L%d:%s" % (i, rng.choice(["v3", "v7", "e31", "d"])) for i in o)))
+    return out
+
+
+def asyncstack_tie(chk):
+    quick = chk.tier == "quick"
+    rng = random.Random(chk.seed * 104729 + 20)
+    st = chk.cov.setdefault("asyncstack", {"programs": 0, "runs": 0, "observations": 0, "model_replays": 0,
+                                           "snapshots_compared": 0, "sync_wait_runs": 0, "task_runs": 0, "traces_checked": 0,
+                                           "distinct_programs_replayed": 0, "stalecache_reproduced": 0, "per_configuration": {}})
+    # the random programs are the same in every configuration
+    rtus = []
+    for _ in range(1 if quick else 6):
+        cases = []
+        for _ in range(8):
+            g = k2.Gen(rng); cases.append(g.expr(rng.randint(2, 8)))
+        rtus.append(cases)
+    tus = [k2.CORPUS, AS_CORPUS] + rtus
+    scripts = {}
+    for cases in tus:
+        for e in cases:
+            scripts[k2.to_model(e)] = k2.gen_scripts(rng, e, 6 if quick else 24)
+    wscripts = {k2.to_model(e): _wait_scripts(rng, e, 3 if quick else 10) for e in WAIT_CORPUS}
+    distinct = set()
+
+    def violation(kind, cfg, e, pre, sc, verdict, io, exe, line, info, mode):
+        chk.cov["disagreements_checked"] += 1
+        rec = {"kind": "asyncstack", "configuration": cfg, "mode": mode, "expr": k2.to_model(e), "cpp": k2as.tree_of(e, mode != "plain")[1],
+               "prestop": pre, "script": sc, "verdict": verdict, "impl": io, "program": info.get("program") if info else None,
+               "model_line": info.get("model_line") if info else None,
+               "obligation": "AsyncStack correspondence: snapshots of the real bookkeeping vs the model; direct monitors",
+               "replay": "echo '%s' | %s" % (line, exe)}
+        rp = chk.replay_file("as_%s" % hashlib.sha256((cfg + mode + k2.to_model(e) + sc).encode()).hexdigest()[:10], rec)
+        key = "as/%s" % re.sub(r"[^\w/.-]+", "_", verdict.split(":")[0])
+        chk.violation(key, rp, text="[%s %s] %s | %s | %s" % (cfg, mode, k2.to_model(e), sc, verdict[:400]))
+
+    for cfg in DBG:
+        per = st["per_configuration"].setdefault(cfg, {"runs": 0, "ok": 0})
+        # ---------------- plain K2 runs: model replay + monitors (+ async_trace with visitation) + Calc trace
+        for exe, cases in _build(chk, tus, cfg, "plain", "k2as" + cfg):
+            lines, meta = [], []
+            for i, e in enumerate(cases):
+                st["programs"] += 1
+                for pre, sc in scripts[k2.to_model(e)]:
+                    lines.append("%d %d | %s" % (i, pre, sc)); meta.append((e, pre, sc))
+            iout = vlib.run_impl_lines(exe, lines, chunk=400)
+            cal = vlib.model_run(["calc %d %s | %s" % (pre, k2.to_model(e), sc) for (e, pre, sc) in meta])
+            pend = []
+            for (e, pre, sc), io, line, co in zip(meta, iout, lines, cal):
+                st["runs"] += 1; per["runs"] += 1
+                t, _ = k2as.tree_of(e)
+                if io.startswith("CRASH"):
+                    violation("crash", cfg, e, pre, sc, "crash: " + io[:300], io, exe, line, None, "plain"); continue
+                # first half for free: the trace without the async-stack records equals the Calc model's
+                body, _, tail = io.partition(" # ")
+                plain = ";".join(x for x in body.split(";") if not x.startswith("as ")) + " # " + tail
+                if k2.canon(plain) != k2.canon(co) or k2.monitor(plain):
+                    violation("calc", cfg, e, pre, sc, "calc: trace differs from the Calc model: %s vs %s" % (k2.canon(plain)[:150], k2.canon(co)[:150]),
+                              io, exe, line, None, "plain"); continue
+                v, info = k2as.check_run(t, io)
+                st["observations"] += info.get("observations", 0)
+                if not v and "vis" in cfg:
+                    v = k2as.check_traces(t, k2as.parse_log(io)[1]); st["traces_checked"] += 1
+                if v:
+                    violation("", cfg, e, pre, sc, v, io, exe, line, info, "plain"); continue
+                pend.append((e, pre, sc, io, line, info))
+            mout = vlib.model_run([p[5]["model_line"] for p in pend]) if pend else []
+            for (e, pre, sc, io, line, info), mo in zip(pend, mout):
+                st["model_replays"] += 1
+                v = k2as.compare_with_model(info, mo)
+                if not v and "roots=0" in io and not any(o.what == "complete" for (_, _, o) in info["expected"]):
+                    # nothing completed: every started operation state is alive; its frame's cached stackRoot still
+                    # names the destroyed root of its start bracket (C20_stackroot_cache_cleared_refuted), as in the model
+                    if info["stalecache"] != info["model_stalecache"]:
+                        v = "stalecache: %d frames with a stale stackRoot, the model predicts %d" % (info["stalecache"], info["model_stalecache"])
+                    elif info["stalecache"] > 0:
+                        st["stalecache_reproduced"] += 1
+                if v:
+                    violation("", cfg, e, pre, sc, v, io, exe, line, info, "plain"); continue
+                st["snapshots_compared"] += len(info["expected"])
+                per["ok"] += 1
+                chk.cov["traces_validated_against_impl"] += 1
+                distinct.add(info["model_line"])
+                nontriv = ("S" in sc.split() or pre) or "error" in io or "done" in io
+                chk.count(("as", cfg, k2.to_model(e), pre, sc), nontriv)
+                if nontriv and cfg == "dbg17":
+                    chk.sample({"asyncstack": k2.to_model(e), "script": sc, "program": info["program"][0][:300]}, limit=12)
+        # ---------------- under sync_wait (initial_stack_root path), two threads
+        for exe, cases in _build(chk, [WAIT_CORPUS], cfg, "wait", "k2asw" + cfg):
+            lines, meta = [], []
+            for i, e in enumerate(cases):
+                for pre, sc in wscripts[k2.to_model(e)]:
+                    lines.append("%d %d | %s" % (i, pre, sc)); meta.append((e, pre, sc))
+            iout = vlib.run_impl_lines(exe, lines, chunk=400)
+            pend = []
+            for (e, pre, sc), io, line in zip(meta, iout, lines):
+                st["runs"] += 1; per["runs"] += 1; st["sync_wait_runs"] += 1
+                t, _ = k2as.tree_of(e, True)
+                if io.startswith("CRASH"):
+                    violation("crash", cfg, e, pre, sc, "crash: " + io[:300], io, exe, line, None, "wait"); continue
+                v, info = k2as.check_run(t, io, True, 2)
+                st["observations"] += info.get("observations", 0)
+                if v:
+                    violation("", cfg, e, pre, sc, v, io, exe, line, info, "wait"); continue
+                pend.append((e, pre, sc, io, line, info))
+            mout = vlib.model_run([p[5]["model_line"] for p in pend]) if pend else []
+            for (e, pre, sc, io, line, info), mo in zip(pend, mout):
+                st["model_replays"] += 1
+                v = k2as.compare_with_model(info, mo, True)
+                if v:
+                    violation("", cfg, e, pre, sc, v, io, exe, line, info, "wait"); continue
+                st["snapshots_compared"] += len(info["expected"]); per["ok"] += 1
+                chk.cov["traces_validated_against_impl"] += 1
+                distinct.add(info["model_line"])
+                chk.count(("asw", cfg, k2.to_model(e), sc), True)
+                if cfg == "dbg17":
+                    chk.sample({"asyncstack_sync_wait": k2.to_model(e), "script": sc, "program": [p[:200] for p in info["program"]]}, limit=14)
+        # ---------------- C++20: a task<> awaiting the expression (monitors only)
+        if cfg.endswith("20"):
+            for exe, cases in _build(chk, [TASK_CORPUS], cfg, "task", "k2ast" + cfg):
+                lines, meta = [], []
+                for i, e in enumerate(cases):
+                    for pre, sc in wscripts[k2.to_model(e)]:
+                        lines.append("%d %d | %s" % (i, pre, sc)); meta.append((e, pre, sc))
+                iout = vlib.run_impl_lines(exe, lines, chunk=400)
+                for (e, pre, sc), io, line in zip(meta, iout, lines):
+                    st["runs"] += 1; per["runs"] += 1; st["task_runs"] += 1
+                    t, _ = k2as.tree_of(e, True)
+                    if io.startswith("CRASH"):
+                        violation("crash", cfg, e, pre, sc, "crash: " + io[:300], io, exe, line, None, "task"); continue
+                    v, info = k2as.check_task_run(t, io)
+                    st["observations"] += info.get("observations", 0)
+                    if v:
+                        violation("", cfg, e, pre, sc, v, io, exe, line, info, "task"); continue
+                    per["ok"] += 1
+                    chk.count(("ast", cfg, k2.to_model(e), sc), True)
+    st["distinct_programs_replayed"] = len(distinct)
+
+
 def run(chk, replay=None):
-    chk.cov["rule"] = ("the K2 programs (generated sender expressions x event scripts) compiled in each of the 8 configurations "
+    chk.cov["rule"] = ("(1) the K2 programs (generated sender expressions x event scripts) compiled in each of the 8 configurations "
                        "{C++17,C++20} x {NDEBUG, debug+async stacks} x {continuation visitation 0,1}; every configuration's trace must equal the "
-                       "ONE trace of the Calc model, hence each other; non-trivial = has stop/error/done")
+                       "ONE trace of the Calc model, hence each other; (2) in the 4 debug configurations the same programs (and cases under "
+                       "sync_wait / a task<>) print snapshots of the async-stack bookkeeping, replayed on the AsyncStack model; "
+                       "non-trivial = has stop/error/done or runs on two threads")
+    chk.cov["trusted_base"] = [
+        "Coq 8.16.1 kernel; Print Assumptions closed for every theorem of Properties_C20_asyncstack.v",
+        "extraction ExtrOcamlBasic; ocaml/handlers/h_asyncstack.ml (reader, snapshot printer, lowest-enabled-thread schedule)",
+        "harness/k2as.hpp (snapshot of roots/frames through -fno-access-control), tools/k2as.py (op tree predicted from the expression; "
+        "reconstruction of the traced run from consecutive snapshots)",
+        "the coroutine path (connect_awaitable, await_transform, task) is monitored, not modelled"]
+    chk.prove()
     quick = chk.tier == "quick"
     per = {}
     for cfg in CONFIGS:
@@ -14,5 +233,7 @@ def run(chk, replay=None):
         k2.run_k2(chk, n_tus=2 if quick else 12, cases_per_tu=8, scripts_per_case=12 if quick else 40, cfg=cfg, tag="k2" + cfg)
         per[cfg] = chk.cov["traces_validated_against_impl"] - before
     chk.cov["per_configuration_traces_equal_to_model"] = per
-    chk.cov["programs"] = chk.cov.get("k2", {}).get("programs", 0)
-    chk.cov["explanation"] = "translation validation: 8 build configurations against one model trace"
+    asyncstack_tie(chk)
+    chk.cov["programs"] = chk.cov.get("k2", {}).get("programs", 0) + chk.cov["asyncstack"]["programs"]
+    chk.cov["explanation"] = ("translation validation: 8 build configurations against one model trace (sample: quick = corpus + 16 generated "
+                              "expressions x 14 scripts per configuration); async-stack: theorems for all runs + snapshot tie in the 4 debug configurations")
